@@ -9,8 +9,8 @@
    NOT covered (property is claimed partial): MPI's own progress, the visibility of received data,
    liveness of the poller (that somebody keeps polling).
    PART D (poll_singlethreaded, Model/Mpi.v [sstep]): every schedule [list (nat * soracle)] whose steps are all
-   taken by ONE OS thread ([one_thread t0 sched]: the dedicated pool has one worker and non-inline requests
-   are transferred to it), every inline-registration predicate [inl] (which callbacks call
+   taken by ONE OS thread ([one_thread t0 sched]: register_polling installs this poller only for a polling pool
+   with one worker - C20_single_mode_one_worker - and non-inline requests are transferred to it), every inline-registration predicate [inl] (which callbacks call
    add_request_callback from inside their body); the no-reallocation theorem needs [no_inline_add inl],
    which holds for the callbacks transform_mpi registers (notes/design/C20.md). *)
 From Coq Require Import List Arith NArith Bool.
@@ -160,10 +160,21 @@ Theorem C20_polling_balanced : forall ops, balanced 0 ops = true ->
 Proof. exact polling_balanced. Qed.
 Print Assumptions C20_polling_balanced.
 
-Theorem C20_polling_enabled_iff : forall pool m,
-  p_fn (p_run [PStart pool m]) = match m_method m with YieldWhile => None | _ => Some (single_threaded pool m) end.
+Theorem C20_polling_enabled_iff : forall pool w m,
+  p_fn (p_run [PStart pool w m]) = match m_method m with YieldWhile => None | _ => Some (single_thread_mode pool w m) end.
 Proof. exact polling_enabled_iff. Qed.
 Print Assumptions C20_polling_enabled_iff.
+
+(* start_polling on a pool with w OS threads installs poll_singlethreaded (and makes add_request_callback push
+   straight into the unlocked vectors) only if w = 1: the hypothesis [one_thread] of PART D is enforced by
+   register_polling.  Before the repair (single_thread_mode_ = can_run_singlethreaded(mode), whatever the pool)
+   start_polling(handler, "a pool with two workers") ran the lock-free poller on both workers: the translator then
+   emits single_mode_one_worker = false and this theorem no longer type-checks; the witness is
+   C20_single_second_thread_wrong_callback below, replayed on the real code by `c20_mpi mtpool`. *)
+Theorem C20_single_mode_one_worker : forall pool w m,
+  p_fn (p_run [PStart pool w m]) = Some true -> w = 1.
+Proof. exact single_mode_polling_fn. Qed.
+Print Assumptions C20_single_mode_one_worker.
 
 (* every path through receiver::set_value (dispatch, trigger, the four handler methods, the callbacks)
    signals the downstream receiver at most once, exactly once when the operation is done, and set_value
@@ -316,6 +327,25 @@ Example C20_single_second_thread_compacts :
   vcb (fst (step (sstep inl) c (1, SoNoTest))) = [(1, 1)] /\
   snd (step (sstep inl) c (1, SoNoTest)) 0 = SInCb 0 0.
 Proof. exact single_second_thread_compacts. Qed.
+
+(* what a second polling thread does to the PROPERTY (not only to the memory of the running closure): thread 0 has
+   the Testany hit for slot 0, thread 1 compacts before thread 0 invokes callbacks_[0]: the callback of request 1 is
+   invoked although MPI never completed request 1 and no test reported it, the callback of request 0 is destroyed
+   uninvoked (on the real code the second `requests_[index] = MPI_REQUEST_NULL` then erases r1's slot: all_in_flight_
+   stays 1 with empty vectors and pika::wait / stop_polling never return; the model nulls once, so r1 stays).  So
+   C20_single_callback_once / C20_single_after_complete are FALSE without [one_thread]; the code guarantees
+   [one_thread] since the repair (C20_single_mode_one_worker); on the unrepaired code this schedule is reproduced by
+   `c20_mpi mtpool 30 2 ...` (public API: start_polling(no_handler, "mpi2"), pool "mpi2" with two PUs). *)
+Example C20_single_second_thread_wrong_callback :
+  let inl := fun _ : req => false in
+  let g := fst (s_run inl w_two_wrong_sched) in
+  no_inline_add inl /\
+  mlog g = [EvCall 1 1 false; EvTest 0; EvDone 0 false; EvReg 1; EvReg 0] /\
+  (forall e, ~ In (EvDone 1 e) (mlog g)) /\ ~ In (EvTest 1) (mlog g) /\
+  ~ In 0 (calls (mlog g)) /\
+  vreq g = [Some 1] /\ vcb g = [(1, 1)] /\ in_flight g = 1 /\
+  snd (s_run inl w_two_wrong_sched) 0 = SIdle /\ snd (s_run inl w_two_wrong_sched) 1 = SIdle.
+Proof. exact single_second_thread_wrong_callback. Qed.
 
 (* non-vacuity: one thread registers two requests, MPI completes r1 (error status) then r0; Testany reports
    them in that order; both callbacks run once, in place, after their tests; counters and vectors drain *)
